@@ -45,6 +45,15 @@ type Read struct {
 	// Enc: which legal encoder wrote the coded body — zero value: Go's own compress/gzip and
 	// compress/zlib writers with their fixed headers; otherwise another legal header of the format
 	Enc EncOpt
+	// Same: the read is performed on the *restful.Request of the read before it (which has been
+	// through that ReadEntity, and the ones before on the same request): this read's body is put in
+	// place of what is left of the earlier one and the two entity headers are set to this read's.
+	// Reads joined by Same form a group (Groups).
+	Same bool
+	// Dispatch, on the first read of a group: the group is performed by the stages of ONE dispatch
+	// through a real container (filters, then the route function) instead of ReadEntity calls on a
+	// restful.NewRequest
+	Dispatch bool
 }
 
 // History is one case.
@@ -448,15 +457,30 @@ func GenHistory(r *rng.R, extras bool) (History, error) {
 	n := 1 + r.Intn(12)
 	gzipHeavy := r.Chance(1, 2)
 	for i := 0; i < n; i++ {
+		// which request object the read is performed on: in a quarter of the cases the one of the read
+		// before (a filter read the entity, the next filter or the route function reads again) — mostly
+		// with the same bytes put back and the same headers, else with another body and headers put in
+		// their place; a request of its own is in half of the cases one that a container dispatches
+		same := i > 0 && r.Chance(1, 4)
+		if same && r.Chance(3, 5) {
+			rd := h.Reads[i-1]
+			rd.Same, rd.Dispatch = true, false
+			h.Reads = append(h.Reads, rd)
+			continue
+		}
+		dispatch := !same && r.Chance(1, 2)
 		if i > 0 && r.Chance(1, 6) {
 			// the same request again (history independence on identical inputs)
-			h.Reads = append(h.Reads, h.Reads[r.Intn(i)])
+			rd := h.Reads[r.Intn(i)]
+			rd.Same, rd.Dispatch = same, dispatch
+			h.Reads = append(h.Reads, rd)
 			continue
 		}
 		rd, err := GenRead(r, extras)
 		if err != nil {
 			return h, err
 		}
+		rd.Same, rd.Dispatch = same, dispatch
 		if gzipHeavy && rd.Coding != "gzip" && r.Chance(2, 3) {
 			// re-code as gzip, keeping the status
 			rd.Coding = "gzip"
